@@ -458,6 +458,13 @@ func cmdCheck(args []string) int {
 		assumptions = append(assumptions, "assumed contract/fact: "+a)
 	}
 	for _, a := range sortedKeys(assumedSet) {
+		if fnClass[a] == "P" {
+			continue // proved in this very run
+		}
+		if strings.Contains(a, ": explicit assume[") {
+			assumptions = append(assumptions, "explicit assumption inside a contract (never proved): "+a)
+			continue
+		}
 		assumptions = append(assumptions, "callee contract used without being part of this property's discharged set: "+a)
 	}
 	for _, a := range pc.Unverified {
@@ -505,6 +512,36 @@ func cmdCheck(args []string) int {
 	}
 	if len(samples) == 0 {
 		ev.Coverage["samples"] = []any{"(no obligation discharged on this run)"}
+	}
+	if *tier == "thorough" && exit == 0 && os.Getenv("GOVC_NO_MUTANTS") == "" {
+		// thorough tier: the must-fail corpus of this property is run as well (each mutant on a scratch copy of the
+		// working tree under the system temp directory, removed afterwards): a check that can no longer tell these
+		// changes from the unchanged tree has lost its power. Recorded in the evidence; never part of the verdict.
+		files, _ := filepath.Glob(filepath.Join(root, "selftest", "mutants", "*.json"))
+		sort.Strings(files)
+		exe, _ := os.Executable()
+		var mres []any
+		killed, total := 0, 0
+		for _, f := range files {
+			var m Mutant
+			d, err := os.ReadFile(f)
+			if err != nil || json.Unmarshal(d, &m) != nil || m.Property != *prop {
+				continue
+			}
+			total++
+			os.Setenv("GOVC_NO_MUTANTS", "1")
+			r := runMutant(exe, root, *repo, m)
+			os.Unsetenv("GOVC_NO_MUTANTS")
+			if strings.HasPrefix(r, "killed") {
+				killed++
+			} else {
+				fmt.Printf("WARNING: must-fail mutant not detected as expected: %s\n", r)
+			}
+			mres = append(mres, map[string]any{"mutant": m.Name, "expected_obligation": m.Expect, "result": strings.Fields(r)[0]})
+		}
+		ev.Coverage["must_fail_mutants"] = mres
+		ev.Coverage["must_fail_mutants_killed"] = fmt.Sprintf("%d of %d", killed, total)
+		ev.WallS = time.Since(t0).Seconds()
 	}
 	os.MkdirAll(*evdir, 0o755)
 	ed, _ := json.MarshalIndent(ev, "", " ")
